@@ -96,7 +96,21 @@ class StmtMixin:
         return outs + exc
 
     def st_Delete(self, s, st):
-        raise Unsupported("del")
+        exc = []
+        for tgt in s.targets:
+            if not isinstance(tgt, ast.Subscript):
+                raise Unsupported("del of non-subscript")
+            res = self.ev_seq([tgt.value, tgt.slice], st, exc)
+            if len(res) != 1:
+                raise Unsupported("del target forked")
+            _, (cont, idx) = res[0]
+            if cont.ty.kind != "dict" or cont.ty.args[0].kind == "unknown":
+                raise Unsupported("del on %r" % (cont.ty,))
+            k = self.coerce(idx, cont.ty.args[0], st)
+            self.require_noexc(st, smt.Select(cont.ts[0], k.ts[0]), "KeyError", "del_key", exc)
+            new = [smt.Store(cont.ts[0], k.ts[0], smt.FALSE)] + cont.ts[1:]
+            self.assign_to(tgt.value, SV(cont.ty, new), st, exc)
+        return [Outcome("normal", st)] + exc
 
     # ------------------------------------------------------------ assignment
     def st_Assign(self, s, st):
@@ -172,6 +186,14 @@ class StmtMixin:
                 return
             if base.ty.kind != "ref":
                 raise Unsupported("attribute store on %r" % (base.ty,))
+            setter = self.property_node(base.ty.cls, tgt.attr, setter=True)
+            if setter is not None:
+                res = [r for r in self.inline(setter, [base, v], {}, st, exc) if not r[0].infeasible()]
+                s2 = self.join_states([r[0] for r in res], len(st.pc))
+                if s2 is None:
+                    raise Unsupported("property setter %s forked" % tgt.attr)
+                st.env, st.heap, st.pc = s2.env, s2.heap, s2.pc
+                return
             if self.field_type(tgt.attr) is None:
                 self.fields[tgt.attr] = v.ty if v.ty.kind not in ("none",) else TANY
                 self.note("field .%s typed %r from first store" % (tgt.attr, self.fields[tgt.attr]))
@@ -244,6 +266,28 @@ class StmtMixin:
                 s3 = self.narrow(s.test, s2.copy().assume(smt.Not(c)), False)
                 outs += self.exec_block(s.orelse, s3) if s.orelse else [Outcome("normal", s3)]
         return self.merge_outcomes(outs, st) + exc
+
+    def join_states(self, states, k):
+        """join states that differ only in their path conditions beyond index k"""
+        if not states:
+            return None
+        if len(states) == 1:
+            return states[0]
+        b = states[0]
+        for s in states[1:]:
+            if s.pc[:k] != b.pc[:k] or set(s.heap) != set(b.heap):
+                return None
+            for f in s.heap:
+                if [t.s for t in s.heap[f].ts] != [t.s for t in b.heap[f].ts]:
+                    return None
+            for n, v in s.env.items():
+                w = b.env.get(n)
+                if w is None or not (w is v or (isinstance(v, SV) and isinstance(w, SV) and v.ty == w.ty and v.ts == w.ts)):
+                    return None
+        out = b.copy()
+        out.pc = b.pc[:k]
+        out.assume(smt.Or(*[smt.And(*s.pc[k:]) for s in states]))
+        return out
 
     def merge_outcomes(self, outs, origin):
         """join the normal outcomes of an if statement (only when contract.merge)"""
